@@ -178,8 +178,9 @@ func runF(op string, in M) (M, M) {
 		}
 		return out, M{"p1": onCurveCert(a), "p2": onCurveCert(b), "sum": sumCert(a, b, r)}
 	case "ecb.hom":
-		ab, bb := vBytes(in["a"]), vBytes(in["b"])
-		var ax, ay, bx, by, sx, sy, abx, aby, mx, my *big.Int
+		// the scalars live in the caller's buffers, reused from call to call with other scalars
+		ab, bb := vBuf("scalar a", in["a"]), vBuf("scalar b", in["b"])
+		var ax, ay, bx, by, sx, sy, abx, aby, mx, my, nx, ny *big.Int
 		an, bn := new(big.Int).SetBytes(ab), new(big.Int).SetBytes(bb)
 		sum := new(big.Int).Add(an, bn)
 		qq, s := new(big.Int).DivMod(sum, sn, new(big.Int))
@@ -189,12 +190,13 @@ func runF(op string, in M) (M, M) {
 			bx, by = Secp256k1().ScalarBaseMult(bb)
 			sx, sy = Secp256k1().ScalarBaseMult(sbytes)
 			mx, my = Secp256k1().ScalarMult(sgx, sgy, ab)
+			nx, ny = Secp256k1().ScalarMult(sgx, new(big.Int).Sub(sp, sgy), ab) // the same scalar on -G, right after G
 			if ax != nil && bx != nil {
 				abx, aby = Secp256k1().Add(ax, ay, bx, by)
 			}
 		})
-		isNil := ax == nil || ay == nil || bx == nil || by == nil || sx == nil || sy == nil || abx == nil || aby == nil || mx == nil || my == nil
-		out := M{"A": ptOut(ax, ay), "B": ptOut(bx, by), "S": ptOut(sx, sy), "AB": ptOut(abx, aby), "mulA": ptOut(mx, my),
+		isNil := ax == nil || ay == nil || bx == nil || by == nil || sx == nil || sy == nil || abx == nil || aby == nil || mx == nil || my == nil || nx == nil || ny == nil
+		out := M{"A": ptOut(ax, ay), "B": ptOut(bx, by), "S": ptOut(sx, sy), "AB": ptOut(abx, aby), "mulA": ptOut(mx, my), "negA": ptOut(nx, ny),
 			"sbytes": vInts(sbytes), "panic": p, "nil": isNil}
 		cert := M{"q": vLimbs(qq), "s": vLimbs(s), "pa": M{"qa": []int{}, "qb": []int{}}, "pb": M{"qa": []int{}, "qb": []int{}},
 			"ps": M{"qa": []int{}, "qb": []int{}}, "sum": sumCert(idPt(), idPt(), idPt())}
@@ -229,6 +231,7 @@ func TestVerifDriver(t *testing.T) {
 		out, cert := runF(op, in)
 		rec.i++
 		rec.count++
+		vPost(out)
 		b, err := json.Marshal(map[string]interface{}{"t": rec.t, "i": rec.i, "op": op, "in": in, "out": out, "cert": cert})
 		if err != nil {
 			panic(err)
